@@ -190,6 +190,10 @@ def shard_config(arg):
         # the same class presented literally in graph form, for a graph of the orbit that need not be edge-minimal
         grng = fw.rng_for("c05g", seed, n, name, k)
         subjects.append(("graph-form", lc.graph_state_gens(n, members.random_lc_walk(n, orbit, grng))))
+        # the class written in CSS form (generators purely of X type or purely of Z type, X checks not reduced), where it has one
+        r_css = members.css_member(n, orbit, fw.rng_for("c05css", seed, n, name, k))
+        if r_css is not None:
+            subjects.append(("css-form", members.apply_signs(r_css[0], fw.h64("c05csss", seed, n, name, k) % (1 << n))))
         # spare qubits of the register left in |0> (or |1>): the graph state of the table's graph / of another graph of the orbit in
         # vertex order, with the generator of every isolated vertex written as +-Z instead of X -- how a user writes "a Bell pair
         # on qubits 0 and 3 of a five-qubit register"
